@@ -33,11 +33,16 @@ Pair == /\ IsEvent("mc.pair")
 Keep == /\ IsEvent("mc.keep")
         /\ Report(l, IF Trace[l].hit /\ Trace[l].intact THEN {} ELSE {"Inv_C20_NoRetainedArg"})
         /\ UNCHANGED nhits
+\* C07, second sentence, at the cache: simultaneous lookups of one stored key, no store or eviction meanwhile:
+\* all of them hit (MemCache: GetTry fails only while a writer holds or awaits the entry's lock)
+Hot == /\ IsEvent("mc.hot")
+       /\ Report(l, IF Trace[l].misses = 0 /\ Trace[l].gets > 0 THEN {} ELSE {"Inv_C07_HotHit"})
+       /\ UNCHANGED nhits
 Sum == /\ IsEvent("mc.sum")
        /\ IF Trace[l].hits < 1000 \/ Trace[l].stores < 1000 THEN Harness(l, "too few hits or stores") ELSE TRUE
        /\ UNCHANGED nhits
 Crash == IsEvent("crash") /\ Report(l, {"Inv_C07_HitOwnValue"}) /\ UNCHANGED nhits
-Next == Get \/ Pair \/ Keep \/ Sum \/ Crash
+Next == Get \/ Pair \/ Keep \/ Hot \/ Sum \/ Crash
 Spec == Init /\ [][Next]_tvars
 Post == Consumed
 =============================================================================
